@@ -653,7 +653,14 @@ fn parse_value_like(
     let mut our_left = last_left;
     let mut our_id = id;
 
-    if *check_for_list {
+    // a closed side effect block in front of a value is not a list item,
+    // white space between them does not make a list, the value takes the block as its left
+    let after_side_effect = match last_left.and_then(|left| nodes.get(left)) {
+        Some(left_node) => left_node.definition == Definition::SideEffect && last_left != under_group,
+        None => false,
+    };
+
+    if *check_for_list && !after_side_effect {
         trace!("List flag is set, creating list node before current node.");
         our_id = id + 1;
         // use current id for list token
